@@ -6,6 +6,9 @@ import (
 	"context"
 	"errors"
 	"fmt"
+	"github.com/sdcio/cache/proto/cachepb"
+	"github.com/sdcio/data-server/pkg/cache"
+	"github.com/sdcio/data-server/pkg/utils"
 	"os"
 	"strings"
 	"sync"
@@ -33,7 +36,7 @@ func (o c06Op) String() string {
 
 func c06Alphabet() []c06Op {
 	var ops []c06Op
-	for _, k := range []string{"set-valid", "set-warn", "set-invalid", "set-dry", "set-deverr"} {
+	for _, k := range []string{"set-valid", "set-same", "set-warn", "set-invalid", "set-badrun", "set-dry", "set-deverr"} {
 		for _, id := range []string{"t1", "t2"} {
 			ops = append(ops, c06Op{k, id})
 		}
@@ -60,8 +63,8 @@ func c06Run(u *Universe, wc *WorkerCache, seq []c06Op) (viol []string, outcome s
 			panic("harness: " + err.Error())
 		}
 		defer w.Close()
-		open := ""  // reference machine: id of the open transaction
-		flip := 0   // alternates the valid content so that every valid Set changes the device
+		open := "" // reference machine: id of the open transaction
+		flip := 0  // alternates the valid content so that every valid Set changes the device
 		add := func(clause string, op c06Op, detail string) {
 			st := "idle"
 			if open != "" {
@@ -72,7 +75,20 @@ func c06Run(u *Universe, wc *WorkerCache, seq []c06Op) (viol []string, outcome s
 		doSet := func(id, kind string) (*sdcpb.TransactionSetResponse, error, bool) {
 			fr := []string{"fa", "fb"}[flip%2]
 			dry := false
+			if kind == "set-same" && flip > 0 {
+				fr = []string{"fa", "fb"}[(flip-1)%2] // the content of the last accepted transaction again: an empty change
+			}
+			badRun := leafLL([]string{"a", "b", "c", "d"}, "sys", "dns") // max-elements 3: invalid, and no intent of this check touches it
 			switch kind {
+			case "set-badrun":
+				// the running configuration holds a value that violates the schema (the device was configured by hand):
+				// the validation error of this otherwise valid transaction belongs to an owner outside the request
+				if err := w.PreloadStore(cachepb.Store_CONFIG, []Leaf{badRun}); err != nil {
+					panic("harness: " + err.Error())
+				}
+				defer func() {
+					_ = w.Raw.Modify(context.Background(), w.Name, &cache.Opts{Store: cachepb.Store_CONFIG}, [][]string{utils.ToStrings(badRun.P.Sdcpb(), false, false)}, nil)
+				}()
 			case "set-warn":
 				fr = []string{"fw", "fw2"}[flip%2]
 			case "set-invalid":
@@ -108,8 +124,9 @@ func c06Run(u *Universe, wc *WorkerCache, seq []c06Op) (viol []string, outcome s
 		step := func(op c06Op) {
 			devBefore := w.Dev.NumCalls()
 			wantDev := 0
+			anyDev := false
 			switch op.Kind {
-			case "set-valid", "set-warn", "set-invalid", "set-dry", "set-deverr":
+			case "set-valid", "set-same", "set-warn", "set-invalid", "set-badrun", "set-dry", "set-deverr":
 				rsp, err, finished := doSet(op.ID, op.Kind)
 				if !finished {
 					add("set-never-returns", op, "TransactionSet did not return after its context was cancelled")
@@ -137,9 +154,26 @@ func c06Run(u *Universe, wc *WorkerCache, seq []c06Op) (viol []string, outcome s
 						wantDev = 1
 						flip++
 					}
+				case "set-same":
+					if err != nil || hasErrs {
+						add("valid-set-refused", op, fmt.Sprintf("err=%v intentErrors=%v", err, hasErrs))
+					} else {
+						open = op.ID
+						anyDev = true // a transaction without a change may or may not be handed to the device
+						if flip == 0 {
+							flip++ // nothing was accepted before: this one created the content
+						}
+					}
 				case "set-invalid":
 					if err == nil && !hasErrs {
 						add("invalid-set-accepted", op, "no error reported")
+					}
+				case "set-badrun":
+					// whether the transaction is refused is C04's subject; here: refused = nothing happened, accepted = open
+					if err == nil && !hasErrs {
+						open = op.ID
+						wantDev = 1
+						flip++
 					}
 				case "set-deverr":
 					wantDev = 1 // the attempt reaches the device and is refused there
@@ -178,7 +212,7 @@ func c06Run(u *Universe, wc *WorkerCache, seq []c06Op) (viol []string, outcome s
 					open = ""
 				}
 			}
-			if got := w.Dev.NumCalls() - devBefore; got != wantDev {
+			if got := w.Dev.NumCalls() - devBefore; got != wantDev && !(anyDev && got <= 1) {
 				add("device-traffic", op, fmt.Sprintf("%d Set call(s) reached the device, expected %d", got, wantDev))
 			}
 			id, _ := w.DS.VerifOpenTransaction()
